@@ -46,7 +46,7 @@ class StreamDirectiveOnListField(ASTValidationRule):
             try:
                 field_name = next(
                     name
-                    for name, field in parent_type.fields.items()  # type: ignore
+                    for name, field in getattr(parent_type, "fields", {}).items()
                     if field is field_def
                 )
             except StopIteration:  # pragma: no cover
